@@ -27,7 +27,7 @@ def generate(tier, seed):
         for o in ("none", "-c", "-i"):
             cases.append({"kind": "file", "file": name, "optset": o, "seed": "%d:%s:%s" % (seed, name, o),
                           "cost": 80 if name in sources.PROTEINS else 4})
-    n = 800 if tier == "quick" else 8000
+    n = 800 if tier == "quick" else 40000
     for k in range(n):
         cases.append({"kind": "built", "seed": "%d:b:%d" % (seed, k), "cost": 12})
     # every fragment of the library (each ligand group type, DNA residues) next to real protein
